@@ -18,7 +18,7 @@ ASSUMPTIONS = ['no schedule dimension (posts from handlers are re-entrancy, not 
 PROBES = []
 PLAN = {
   'quick': {'strata': {'deque-order': 5000, 'long-circuit': 48}, 'wall_s': 300, 'chunk': 100, 'min_conclusive': 1000},
-  'thorough': {'strata': {'deque-order': 120000, 'long-circuit': 1500}, 'wall_s': 900, 'chunk': 250, 'min_conclusive': 10000},
+  'thorough': {'strata': {'deque-order': 120000, 'long-circuit': 1500}, 'wall_s': 900, 'chunk': 250, 'min_conclusive': 1000},
 }
 ORACLES = [lambda run, res: co.check_queue_order(run, res, want=('C14',))]
 
